@@ -243,6 +243,10 @@ class FixedWindowPolicy:
             raise ValueError(f"window_size must be > 0, got {window_size}")
         self._requests_per_window = requests_per_window
         self._window_size = window_size
+        # Window length in integer nanoseconds (the same truncation that
+        # ``Instant + window_size`` applies), so window boundaries are computed
+        # without floating-point floor division.
+        self._window_ns = max(1, Duration.from_seconds(window_size).nanoseconds)
         self._current_window_start: Instant | None = None
         self._current_window_count: int = 0
 
@@ -255,8 +259,7 @@ class FixedWindowPolicy:
         return self._window_size
 
     def _get_window_start(self, now: Instant) -> Instant:
-        now_s = now.to_seconds()
-        return Instant.from_seconds((now_s // self._window_size) * self._window_size)
+        return Instant((now.nanoseconds // self._window_ns) * self._window_ns)
 
     def _maybe_reset(self, now: Instant) -> None:
         ws = self._get_window_start(now)
